@@ -46,10 +46,17 @@ CLEANUP = ("remove", "prune", "branch-D")
 # Generation
 
 
-def _version(rng, i, kind):
-    """One version of the package: relpath (inside the package dir) -> content."""
+def _version(rng, i, kind, sibling=False):
+    """One version of the package: relpath (inside the package dir; `../_pkg/x.py` = private sibling package) -> content."""
     params = ["a", "b", "c"][: rng.choice([1, 2, 3])]
     sig = ", ".join(params)
+    if sibling and kind in ("normal", "inspectable"):
+        # the layout Griffe itself uses: the public package only re-exports what a private sibling package defines
+        return {
+            "__init__.py": f'"""pkg v{i}"""\nfrom _pkg.a import f, K\n__all__ = ["f", "K"]\n',
+            "../_pkg/__init__.py": "",
+            "../_pkg/a.py": f'def f({sig}):\n    """f v{i}"""\n    return 1\n\n\nclass K:\n    """K v{i}"""\n\n    def m(self, x):\n        return x\n',
+        }
     files = {
         "__init__.py": f'"""pkg v{i}"""\nfrom pkg.a import f\n__all__ = ["f"]\n',
         "a.py": f'def f({sig}):\n    """f v{i}"""\n    return 1\n\n\nclass K:\n    """K v{i}"""\n\n    def m(self, x):\n        return x\n',
@@ -68,6 +75,7 @@ def _version(rng, i, kind):
 def generate(rng, opts):
     layout = rng.choice(["root", "root", "src"])
     n_commits = rng.choice([2, 3, 3, 4, 5])
+    sibling = rng.random() < 0.35
     commits = []
     for i in range(n_commits):
         kind = "normal"
@@ -78,7 +86,7 @@ def generate(rng, opts):
             kind = "nopkg"
         elif r < 0.2:
             kind = "undecodable"
-        commits.append({"kind": kind, "files": {} if kind == "nopkg" else _version(rng, i, kind), "tags": [], "branches": []})
+        commits.append({"kind": kind, "files": {} if kind == "nopkg" else _version(rng, i, kind, sibling), "tags": [], "branches": []})
     for t in rng.sample(TAGS, rng.choice([1, 2, 3])):
         commits[rng.randrange(n_commits)]["tags"].append(t)
     for b in rng.sample(BRANCHES, rng.choice([0, 1, 2])):
@@ -130,7 +138,7 @@ def generate(rng, opts):
         else:
             base = rng.choice([None, None, rng.choice(refs)])
             ops.append({"op": "check", "api": rng.choice(["check", "main"]), "against": ref if rng.random() < 0.85 else None, "base_ref": base, "style": rng.choice([None, "oneline", "verbose", "markdown", "github"]), "faults": faults})
-    return {"world": {"layout": layout, "commits": commits, "state": state}, "ops": ops}
+    return {"world": {"layout": layout, "commits": commits, "state": state, "sibling": sibling}, "ops": ops}
 
 
 # ------------------------------------------------------------------------------------------------
@@ -164,13 +172,16 @@ def build_repo(root, world):
     with open(os.path.join(repo, "README.md"), "w") as fh:
         fh.write("sim\n")
     for i, c in enumerate(world["commits"]):
-        if os.path.isdir(pkg_dir):
-            shutil.rmtree(pkg_dir)
+        for d in (pkg_dir, os.path.join(os.path.dirname(pkg_dir), "_pkg")):
+            if os.path.isdir(d):
+                shutil.rmtree(d)
         if c["files"]:
             os.makedirs(pkg_dir)
             for rel, content in c["files"].items():
                 data = content.encode("latin-1") if c["kind"] == "undecodable" and rel == "b.py" else content.encode("utf8")
-                with open(os.path.join(pkg_dir, rel), "wb") as fh:
+                full = os.path.normpath(os.path.join(pkg_dir, rel))
+                os.makedirs(os.path.dirname(full), exist_ok=True)
+                with open(full, "wb") as fh:
                     fh.write(data)
         with open(os.path.join(repo, "README.md"), "a") as fh:
             fh.write(f"commit {i}\n")
@@ -396,7 +407,7 @@ def _names_iter(seed_text):
         i += 1
 
 
-def _source_check(ctx, world, top, ref_commit, w_norm, tags):
+def _source_check(ctx, world, top, ref_commit, w_norm, tags, resolved_expected=False):
     """After a successful load: every object of the returned tree is usable after the checkout is gone."""
     files = world["commits"][ref_commit]["files"] if ref_commit is not None else None
     seen = set()
@@ -407,6 +418,18 @@ def _source_check(ctx, world, top, ref_commit, w_norm, tags):
         seen.add(id(obj))
         for m in obj.members.values():
             if m.is_alias:
+                # after resolve_aliases, an alias into a package of the same checkout must be resolved and usable
+                top = m.target_path.split(".", 1)[0]
+                if resolved_expected and files is not None and (top == "pkg" or (top == "_pkg" and any(k.startswith("../_pkg/") for k in files))):
+                    try:
+                        ft = m.final_target
+                        ft.lines  # noqa: B018
+                        m.as_json(full=True)
+                    except Exception as e:  # noqa: BLE001
+                        ctx.fail("U-alias-unusable", f"{m.path} -> {m.target_path}: not usable after load_git(resolve_aliases=True): {type(e).__name__}: {str(e)[:120]}", exc=e, tags=tags)
+                        return False
+                    if not rec(ft):
+                        return False
                 continue
             try:
                 lines = m.lines
@@ -417,8 +440,11 @@ def _source_check(ctx, world, top, ref_commit, w_norm, tags):
             except Exception as e:  # noqa: BLE001
                 ctx.fail("U-unusable", f"{m.path}: attribute access after load_git raised {type(e).__name__}: {str(e)[:160]}", exc=e, tags=tags)
                 return False
-            if files is not None and not m.is_module and isinstance(fp, Path) and fp.name in files and m.lineno and m.endlineno:
-                expected = files[fp.name].splitlines()[m.lineno - 1 : m.endlineno]
+            key = None
+            if isinstance(fp, Path):
+                key = fp.name if fp.parent.name == "pkg" else f"../{fp.parent.name}/{fp.name}"
+            if files is not None and not m.is_module and key in files and m.lineno and m.endlineno:
+                expected = files[key].splitlines()[m.lineno - 1 : m.endlineno]
                 if lines != expected:
                     ctx.fail("U-source", f"{m.path}: source lines differ from the file at that commit: {lines[:2]} != {expected[:2]}", tags=tags)
                     return False
@@ -430,6 +456,42 @@ def _source_check(ctx, world, top, ref_commit, w_norm, tags):
         return True
 
     return rec(top)
+
+
+def _f_params(files):
+    import re
+
+    for key in ("a.py", "../_pkg/a.py"):
+        if key in files:
+            m = re.search(r"def f\(([^)]*)\)", files[key])
+            return m.group(1) if m else None
+    return None
+
+
+def _expected_break(world, op):
+    """True: f's parameter list differs between the two committed versions (must be reported); False: the very same
+    commit on both sides (nothing to report); None: not predicted (dirty working tree, broken commits, unknown refs)."""
+    if op.get("against") is None:
+        return None
+    old = _ref_commit(world, op["against"])
+    if op.get("base_ref") is None:
+        st = world["state"]
+        if st["dirty"] or st["detached"]:
+            return None
+        new = len(world["commits"]) - 1
+    else:
+        new = _ref_commit(world, op["base_ref"])
+    if old is None or new is None:
+        return None
+    co, cn = world["commits"][old], world["commits"][new]
+    if co["kind"] not in ("normal", "inspectable") or cn["kind"] not in ("normal", "inspectable"):
+        return None
+    if old == new:
+        return False
+    po, pn = _f_params(co["files"]), _f_params(cn["files"])
+    if po is None or pn is None:
+        return None
+    return True if po != pn else None
 
 
 def _ref_commit(world, ref):
@@ -562,7 +624,7 @@ def execute(plan, ctx):
                 if op["op"] == "load_git":
                     # a file whose read was tampered with cannot be compared with the commit's content
                     ref_commit = None if any(k.startswith("read-") for k in ctx.faults) else _ref_commit(world, op["ref"])
-                    if not _source_check(ctx, world, result, ref_commit, None, tags):
+                    if not _source_check(ctx, world, result, ref_commit, None, tags, resolved_expected=bool(op["resolve_aliases"]) and not faults and ref_commit is not None and world["commits"][ref_commit]["kind"] in ("normal", "inspectable")):
                         break
                 else:
                     text = err.getvalue()
@@ -576,6 +638,14 @@ def execute(plan, ctx):
                     if (result == 1) != bool(lines) and result != 2:
                         ctx.fail("U-exit-code", f"check returned {result} but printed {len(lines)} breakage lines", tags=tags)
                         break
+                    exp = _expected_break(world, op)
+                    if exp is not None and not faults and result != 2:
+                        if exp and result != 1:
+                            ctx.fail("U-missed-breakage", f"check({op.get('against')}, base_ref={op.get('base_ref')}) returned {result}: the parameters of the public function f differ between the two versions but nothing was reported", tags=tags)
+                            break
+                        if not exp and result != 0 and exp is False:
+                            ctx.fail("U-spurious-breakage", f"check of a version against itself returned {result}: {text[:200]}", tags=tags)
+                            break
             else:
                 ctx.probe("op-failed-" + outcome)
         else:
